@@ -282,6 +282,9 @@ def run(ctx, anchors=None):
     for i in sub.instances:
         if i["rule"] == "R04.F":
             ctx.instances.append(dict(i, rule="R12.7"))
+        if i["rule"] == "R04.5":
+            # an operation that throws is a failed step as well: restored and dropped in the handler around the call
+            ctx.instances.append(dict(i, rule="R12.7", key="on-exception:" + i["key"]))
         if i["rule"] == "R04.2" and i["key"].startswith("counter"):
             ctx.instances.append(dict(i, rule="R12.4"))
         if i["rule"] == "R04.4":
@@ -352,8 +355,9 @@ def run(ctx, anchors=None):
 MUTANTS = [
     dict(name="commitment-counted-under-narrower-guard", file="btcdeb.cpp", find="    } else if (env->sigversion == SigVersion::TAPSCRIPT) {\n        // add commitment phase",
          replace="    } else if (env->sigversion == SigVersion::TAPSCRIPT && env->tce && env->tce->m_path_len > 0) {\n        // add commitment phase", expect=["R12.1:commitment-lines-counted"]),
-    dict(name="failed-step-keeps-pc", file="debugger/interpreter.cpp", find="            env.pc = env.pc_history.back();\n            env.nOpCount = env.nOpCount_history.back();\n            env.vfExec = env.vfExec_history.back();\n            env.pbegincodehash = env.pbegincodehash_history.back();\n            env.execdata = env.execdata_history.back();\n            env.opcode_pos = env.opcode_pos_history.back();\n            // ... and undo",
-         replace="            env.nOpCount = env.nOpCount_history.back();\n            env.vfExec = env.vfExec_history.back();\n            env.pbegincodehash = env.pbegincodehash_history.back();\n            env.execdata = env.execdata_history.back();\n            env.opcode_pos = env.opcode_pos_history.back();\n            // ... and undo", expect=["R12.7:restored-on-failure:pc_history"]),
+    dict(name="failed-step-keeps-pc", file="debugger/interpreter.cpp", before="bool RewindScript(InterpreterEnv& env)", find="    env.pc = env.pc_history.back();\n", replace="",
+         expect=["R12.7:restored-on-failure:pc_history", "R12.7:on-exception:snapshot-dropped-on-exception:pc_history"]),
+    dict(name="throwing-step-not-undone", file="debugger/interpreter.cpp", find="            UndoFailedStep(env);\n            throw;\n", replace="            throw;\n", expect=["R12.7:on-exception:snapshot-dropped-on-exception"]),
     dict(name="dualstack-p2sh-without-flag", file="functions.cpp", find="        if ((env->flags & SCRIPT_VERIFY_P2SH) && env->successor_script.IsPayToScriptHash()) {", replace="        if (env->successor_script.IsPayToScriptHash()) {", expect=["R12.6:same-p2sh-predicate"]),
     dict(name="dualstack-header-differs", file="functions.cpp", find="        headers.push_back(\"<<< scriptPubKey >>>\");", replace="        headers.push_back(\"\");", expect=["R12.6:same-section-headers"]),
     dict(name="header-not-counted", file="btcdeb.cpp", find="        script_headers.push_back(\"<<< scriptPubKey >>>\");\n        count++;", replace="        script_headers.push_back(\"<<< scriptPubKey >>>\");", expect=["R12.1:header-counted"]),
